@@ -182,8 +182,8 @@ def nmax_alphabet(frames_lists):
 
 
 # =========================================================================== C20: periodic Voronoi by scipy
-def _polygon_area(V, normal):
-    """Area of a planar convex polygon given by unordered vertices V (k x 3) in the plane with the given normal."""
+def _polygon(V, normal):
+    """(area, shortest edge) of a planar convex polygon given by unordered vertices V (k x 3) in the plane with the given normal."""
     c = V.mean(axis=0)
     nrm = normal / np.linalg.norm(normal)
     a = np.array([1.0, 0.0, 0.0]) if abs(nrm[0]) < 0.9 else np.array([0.0, 1.0, 0.0])
@@ -194,13 +194,16 @@ def _polygon_area(V, normal):
     y = (V - c) @ e2
     order = np.argsort(np.arctan2(y, x))
     x, y = x[order], y[order]
-    return 0.5 * abs(float(np.sum(x * np.roll(y, -1) - y * np.roll(x, -1))))
+    area = 0.5 * abs(float(np.sum(x * np.roll(y, -1) - y * np.roll(x, -1))))
+    edge = float(np.min(np.hypot(x - np.roll(x, -1), y - np.roll(y, -1))))
+    return area, edge
 
 
 def periodic_voronoi(pos, L):
     """Tessellation of the periodic orthogonal box with edge lengths L (any origin: only differences matter).
     Returns nb[i] = list of (j, size) over all faces of cell i (j = owner of the image across the face, self images
-    allowed; size = edge length in 2D, face area in 3D), vols[i] (area / volume), ok (False if a cell is unbounded)."""
+    allowed; size = edge length in 2D, face area in 3D), vols[i] (area / volume), ok (False if a cell is unbounded),
+    min_edge (3D: shortest Voronoi edge on any face of a central cell = distance to a degenerate vertex; 2D: inf)."""
     from scipy.spatial import ConvexHull, Voronoi
 
     pos = np.asarray(pos, float)
@@ -213,6 +216,7 @@ def periodic_voronoi(pos, L):
     vor = Voronoi(pts)
     nb = [[] for _ in range(N)]
     ok = True
+    min_edge = INF
     for (p, q), verts in zip(vor.ridge_points, vor.ridge_vertices):
         for a, b in ((p, q), (q, p)):
             if c0 <= a < c0 + N:
@@ -223,7 +227,8 @@ def periodic_voronoi(pos, L):
                 if d == 2:
                     w = float(np.linalg.norm(V[0] - V[1]))
                 else:
-                    w = _polygon_area(V, pts[b] - pts[a])
+                    w, e = _polygon(V, pts[b] - pts[a])
+                    min_edge = min(min_edge, e)
                 nb[a - c0].append((int(owner[b]), w))
     vols = []
     for i in range(N):
@@ -233,7 +238,21 @@ def periodic_voronoi(pos, L):
             vols.append(float("nan"))
         else:
             vols.append(float(ConvexHull(vor.vertices[reg]).volume))
-    return nb, vols, ok
+    return nb, vols, ok, min_edge
+
+
+def periodic_volumes(pos, L):
+    """Cell areas / volumes only (same construction as periodic_voronoi, without the faces)."""
+    from scipy.spatial import ConvexHull, Voronoi
+
+    pos = np.asarray(pos, float)
+    N, d = pos.shape
+    L = np.asarray(L, float)
+    imgs = list(itertools.product([-1, 0, 1], repeat=d))
+    pts = np.vstack([pos + np.array(im) * L for im in imgs])
+    c0 = imgs.index(tuple([0] * d)) * N
+    vor = Voronoi(pts)
+    return np.array([ConvexHull(vor.vertices[vor.regions[vor.point_region[c0 + i]]]).volume for i in range(N)])
 
 
 def voronoi_min_face(nb):
@@ -246,15 +265,15 @@ def ref_volume_matrix(pos, L, d, deltar):
     every displaced coordinate)."""
     pos = np.asarray(pos, float)
     N = len(pos)
-    V0 = np.array(periodic_voronoi(pos, L)[1])
+    V0 = periodic_volumes(pos, L)
     A = np.zeros((N, N * d))
     for j in range(N):
         for a in range(d):
             p = pos.copy()
             p[j, a] += deltar
-            Vp = np.array(periodic_voronoi(p, L)[1])
+            Vp = periodic_volumes(p, L)
             p[j, a] -= 2 * deltar
-            Vm = np.array(periodic_voronoi(p, L)[1])
+            Vm = periodic_volumes(p, L)
             col = (Vp - Vm) / (2 * deltar)
             for i in range(N):
                 if i != j:
